@@ -611,6 +611,35 @@ func resolveRoles(p *Prog) *Roles {
 	r.SendErr = r.one("sendError (sends on the error channel)", senderr)
 	r.CloseChans = r.one("closeChannels (closes the signal channel)", closers)
 	r.Release = r.one("release evaluation (calls Cond.Broadcast)", filterPkg(p.funcsCalling(kBroadcast, kSignal), modPath))
+	// the release evaluation is where the decision is taken: an unconditional, unexported wrapper of the Broadcast with a
+	// single calling function (wake under the lock) stands for its caller
+	for hops := 0; r.Release != nil && hops < 3; hops++ {
+		f := r.Release
+		if f.Obj == nil || f.Obj.Exported() || f.Body == nil {
+			break
+		}
+		branches := false
+		ast.Inspect(f.Body, func(n ast.Node) bool {
+			switch n.(type) {
+			case *ast.IfStmt, *ast.SwitchStmt, *ast.TypeSwitchStmt, *ast.SelectStmt, *ast.ForStmt, *ast.RangeStmt:
+				branches = true
+			}
+			return true
+		})
+		if branches {
+			break
+		}
+		var callers []*Func
+		for _, cs := range p.allCalls(false) {
+			if p.byObj[cs.Callee.Key] == f {
+				callers = appendUnique(callers, cs.In)
+			}
+		}
+		if len(callers) != 1 {
+			break
+		}
+		r.Release = callers[0]
+	}
 	r.WaitFn = r.one("barrier wait (calls Cond.Wait)", filterPkg(p.funcsCalling(kCondWait), modPath))
 	r.StopTickers = r.one("stopTickers (calls Ticker.Stop)", filterPkg(p.funcsCalling("time.Ticker.Stop"), modPath))
 	r.NotifyKeys = p.roleKeys(r.Notify)
@@ -693,8 +722,25 @@ func resolveRoles(p *Prog) *Roles {
 	}
 	// stopAll: ranges over NodeSlice() and is not the reaper
 	var stopAll []*Func
+	// (a pass of the reaper extracted into a method is part of the reaper: reachable from its goroutine)
+	inReaper := map[*Func]bool{}
+	if r.Reaper != nil {
+		var mark func(f *Func, depth int)
+		mark = func(f *Func, depth int) {
+			if inReaper[f] || depth < 0 {
+				return
+			}
+			inReaper[f] = true
+			for _, cs := range p.calls(f) {
+				if g := p.byObj[cs.Callee.Key]; g != nil && g.Lib && g.Pkg.PkgPath == modPath {
+					mark(g, depth-1)
+				}
+			}
+		}
+		mark(r.Reaper, 2)
+	}
 	for _, f := range filterPkg(p.funcsCalling(kNodeSlice), modPath) {
-		if f != r.Reaper {
+		if !inReaper[f] {
 			stopAll = append(stopAll, f)
 		}
 	}
